@@ -48,7 +48,7 @@ package note
 
 //@ # what the checksum-database client relies on (C01, C13): x is the text part of m and some signature line on it
 //@ # was verified by a verifier that `known` has for that line's key
-//@ spec func SIGNEDTEXT(known Verifiers, m string, x string) bool = ISTEXTOF(x, m) && (exists s Signature :: SIGOK(known, s, x))
+//@ spec opaque func SIGNEDTEXT(known Verifiers, m string, x string) bool = ISTEXTOF(x, m) && (exists s Signature :: SIGOK(known, s, x))
 
 //@ # some signature among A[o .. o+m) has this name and key hash
 //@ spec func LISTED(A SignatureArr, o int, m int, nm string, h uint32) bool decreases m =
